@@ -96,6 +96,8 @@ def run_case(case):
         U = construct(case, case['seed'])
         snap = None
         for t, b in enumerate(bs):
+            if case.get('early_save') is not None and t == case['early_save'] and t < case['cut']:
+                take_snapshot(U, case)            # an earlier checkpoint of the same engine (discarded): later saves must not be stale
             if t == case['cut']:
                 snap = take_snapshot(U, case)
             one_step(U, b)
